@@ -68,6 +68,12 @@ func convertToParagraph(data reflect.Value) (*Paragraph, error) {
 	paragraphType := reflect.TypeOf(Paragraph{})
 	var foundParagraph Paragraph = Paragraph{}
 
+	if data.Type() == paragraphType {
+		/* a Paragraph is its own Paragraph */
+		para := data.Interface().(Paragraph)
+		return &para, nil
+	}
+
 	for i := 0; i < data.NumField(); i++ {
 		field := data.Field(i)
 		fieldType := data.Type().Field(i)
